@@ -2,14 +2,14 @@
 """G3 — translate `check_all_stop_conditions` (panoc-helpers.tpp and the local copy in panoc-ocp.tpp) into Gallina.
 
 Restricted grammar: inside the function body we accept
-    auto max_time = params.max_time; if (opts.max_time) max_time = std::min(max_time, *opts.max_time);   (ignored: clocks are inputs)
+    auto max_time = params.max_time; if (opts.max_time) max_time = std::min(max_time, *opts.max_time);   (required first, in this order; not part of the model: clocks are inputs)
     auto tolerance = <a> > 0 ? <a> : real_t(<lit>);
     bool <name> = <expr>;       with <expr> ::= atom (<|<=|>|>=|==) atom | not std::isfinite(atom) | call stop_requested()
     return c1 ? SolverStatus::S1 : c2 ? SolverStatus::S2 : ... : SolverStatus::Busy;
 and emit a function over an arbitrary Num T:
     stop_status_<suffix> (opts_tol eps : T) (time_exceeded : bool) (iteration max_iter no_progress max_no_progress : nat)
                         (stop_requested : bool) : status
-Anything else -> out-of-grammar (exit 2), reported by the check, which then relies on the correspondence only."""
+The body is consumed statement by statement in this order; anything else -> out-of-grammar (exit 2), reported by the check, which then relies on the correspondence only."""
 import os, re, sys
 sys.path.insert(0, os.path.join(os.path.dirname(os.path.abspath(__file__)), "..", "lib"))
 from vf import core
@@ -31,9 +31,23 @@ def norm(s):
     return re.sub(r"\s+", " ", s.strip())
 
 def translate_body(body, suffix):
-    m = re.search(r"auto\s+tolerance\s*=\s*opts\.tolerance\s*>\s*0\s*\?\s*opts\.tolerance\s*:\s*real_t\(([0-9.eE+-]+)\)\s*;", body)
-    if not m:
-        raise OutOfGrammar("tolerance definition")
+    # consume-everything: the body is read statement by statement, in order; every statement must be the next accepted form
+    rest = re.sub(r"//[^\n]*", "", body)
+    rest = re.sub(r"/\*.*?\*/", "", rest, flags=re.S)
+    pos = [0]
+
+    def take(pattern, what, optional=False):
+        m = re.compile(r"\s*" + pattern, re.S).match(rest, pos[0])
+        if not m:
+            if optional:
+                return None
+            raise OutOfGrammar("%s expected at: %s" % (what, norm(rest[pos[0]:])[:120]))
+        pos[0] = m.end()
+        return m
+    # the time limit: exactly these two statements, in this order (the model takes `time_elapsed > max_time` as an input)
+    take(r"auto\s+max_time\s*=\s*params\.max_time\s*;", "`auto max_time = params.max_time;`")
+    take(r"if\s*\(opts\.max_time\)\s*max_time\s*=\s*std::min\(max_time,\s*\*opts\.max_time\)\s*;", "`if (opts.max_time) max_time = std::min(max_time, *opts.max_time);`")
+    m = take(r"auto\s+tolerance\s*=\s*opts\.tolerance\s*>\s*0\s*\?\s*opts\.tolerance\s*:\s*real_t\(([0-9.eE+-]+)\)\s*;", "tolerance definition")
     deflt = m.group(1)
     # default tolerance as an exact rational: mantissa / 10^k
     mm = re.fullmatch(r"1e-(\d+)", deflt)
@@ -41,17 +55,20 @@ def translate_body(body, suffix):
         raise OutOfGrammar("default tolerance literal " + deflt)
     k = int(mm.group(1))
     bools = {}
-    for bm in re.finditer(r"bool\s+(\w+)\s*=\s*([^;]+);", body):
+    while True:
+        bm = take(r"bool\s+(\w+)\s*=\s*([^;]+);", "bool definition", optional=True)
+        if not bm:
+            break
         name, expr = bm.group(1), norm(bm.group(2))
         if expr not in ATOMS:
             raise OutOfGrammar("bool %s = %s" % (name, expr))
+        if name in bools:
+            raise OutOfGrammar("bool %s defined twice" % name)
         bools[name] = ATOMS[expr]
-    rm = re.search(r"return\s+(.*?);", body, re.S)
-    if not rm:
-        raise OutOfGrammar("return")
+    rm = take(r"return\s+([^;]*);", "return")
+    if rest[pos[0]:].strip():
+        raise OutOfGrammar("statement outside the grammar: " + norm(rest[pos[0]:])[:120])
     chain = norm(rm.group(1))
-    parts = [p.strip() for p in chain.split(":")]
-    # re-join "SolverStatus::X" pieces split on '::'
     toks = re.findall(r"(\w+)\s*\?\s*SolverStatus::(\w+)", chain)
     tail = re.search(r":\s*SolverStatus::(\w+)\s*$", chain)
     if not toks or not tail:
@@ -62,16 +79,6 @@ def translate_body(body, suffix):
     for c, _ in toks:
         if c not in bools:
             raise OutOfGrammar("unknown condition " + c)
-    # every statement of the body must be one of the accepted forms: strip comments and the accepted statements, nothing may remain
-    rest = re.sub(r"//[^\n]*", "", body)
-    rest = re.sub(r"/\*.*?\*/", "", rest, flags=re.S)
-    rest = re.sub(r"auto\s+max_time\s*=\s*params\.max_time\s*;", "", rest)
-    rest = re.sub(r"if\s*\(opts\.max_time\)\s*max_time\s*=\s*std::min\(max_time,\s*\*opts\.max_time\)\s*;", "", rest)
-    rest = rest.replace(m.group(0), "")
-    rest = re.sub(r"bool\s+\w+\s*=\s*[^;]+;", "", rest)
-    rest = re.sub(r"return\s+.*?;", "", rest, count=1, flags=re.S)
-    if rest.strip():
-        raise OutOfGrammar("statement outside the grammar: " + norm(rest)[:120])
     out = []
     out.append("Definition default_tolerance_%s {T} `{Num T} : T := ndiv n1 (nofZ (10 ^ %d)%%Z)." % (suffix, k))
     out.append("Definition stop_status_%s {T} `{Num T} (opts_tol eps : T) (time_exceeded : bool)" % suffix)
@@ -140,8 +147,8 @@ def main():
             status[suffix] = "out-of-grammar: %s" % e
             outs.append("(* %s: %s *)" % (suffix, status[suffix]))
         outs.append("")
-    os.makedirs(os.path.join(core.COQ, "gen"), exist_ok=True)
-    p = os.path.join(core.COQ, "gen", "StopChain.v")
+    os.makedirs((os.environ.get("VERIF_GEN_OUT") or os.path.join(core.COQ, "gen")), exist_ok=True)
+    p = os.path.join(os.environ.get("VERIF_GEN_OUT") or os.path.join(core.COQ, "gen"), "StopChain.v")
     txt = "\n".join(outs) + "\n"
     if not os.path.exists(p) or open(p).read() != txt:
         open(p, "w").write(txt)
